@@ -38,6 +38,7 @@ def readFmt (fmt : String) (ls : List Str) : Option (Out RObj) :=
   | "xyz" => some (Xyz.read T ls)
   | "mol2" => some (Mol2.read ls)
   | "pdb" => some (Pdb.read Iodata.Gen.Layouts.pdbL ls)
+  | "cube" => some (Cube.read ls)
   | "sdf" => some (Sdf.read T Iodata.Gen.Layouts.sdfL ls)
   | _ => none
 
